@@ -1742,7 +1742,7 @@ class C17(Prop):
                 hist = [['app', g.val(t[1], 4) if kind(t) == 'list' else '1']] + hist
             for o in hist:
                 if r.random() < 0.4:
-                    ops.append(r.choice([['read'], ['len'], ['bytes'], ['root'], ['elem', r.randint(0, 6)], ['elem', r.randint(0, 40)]]))
+                    ops.append(r.choice([['read'], ['len'], ['bytes'], ['root'], ['elem', r.randint(0, 6)], ['elem', r.randint(0, 40)], ['vbl']]))
                 if r.random() < 0.25 and kind(t) in ('list', 'vec', 'bl', 'bv'):
                     ops.append(['slice', r.randint(0, 40), r.randint(0, 40)])
                 ops.append(o)
@@ -1798,6 +1798,22 @@ class C17(Prop):
                 ops.append(r.choice([['slice', r.randint(0, n), r.randint(0, n)], ['slice', r.randint(0, n), r.randint(0, n)],
                                      ['elem', r.randint(0, n)], ['len']]))
             out.append(show(['partial', t, v, pos] + ops))
+        # size queries: containers with dynamic fields next to multi-chunk fixed-size fields, one field summarised
+        for _ in range(self.n(tier) // 6):
+            fx = lambda: r.choice([['Bv', 48], ['Bv', 96], ['vec', 'u64', 8], ['cont', 'u64', 'u64', 'u8'], 'u16', ['bv', 300], ['Bv', 32]])
+            dy = lambda: r.choice([['list', 'u16', 9], ['Bl', 70], ['bl', 300], ['union', 'none', 'u32'], ['list', ['Bl', 3], 3]])
+            fs = [fx(), dy(), fx(), fx()] + ([dy()] if r.random() < 0.5 else []) + ([fx()] if r.random() < 0.5 else [])
+            r.shuffle(fs)
+            t = ['cont'] + fs
+            if r.random() < 0.4:
+                t = r.choice([['list', t, 4], ['vec', t, 2], ['union', 'none', t], ['cont', 'u8', t]])
+            v = g.val(t, 5)
+            cand = [x for x in positions(t, v) if x > 1]
+            d = _get_depth(len(fs))
+            if t[0] == 'cont' and len(t) - 1 == len(fs):
+                cand += [(1 << d) | i for i in range(len(fs))] + [2, 3, 4, 5, 6, 7]
+            pos = ['pos'] + [r.choice(cand) if cand else r.randint(2, 15) for _ in range(r.choice([1, 1, 2]))]
+            out.append(show(['partial', t, v, pos, ['vbl'], ['bytes'], ['root'], ['vbl']]))
         # mutations through child views of a partial tree
         for _ in range(self.n(tier) // 5):
             t = nested_ty(g, r.choice([1, 2, 2]))
@@ -1872,17 +1888,23 @@ class C17(Prop):
                     out.append(F('prop', 'partial tree returned a different result than the complete tree: op %d %s' % (i, show(op)), a, c))
                     break
             elif a not in ('err:nav', 'err:index') and not diverged:
-                if not (c or '').startswith('err'):
+                if c != 'skip' and not (c or '').startswith('err'):
                     out.append(F('prop', 'access to a partial tree failed with another error: op %d %s' % (i, show(op)), a, 'err:nav|err:index'))
                     break
-            if not a.startswith('ok') and (c or '').startswith('ok') and op[0] in ('set', 'app', 'pop', 'chg', 'cpy', 'sets', 'sub'):
-                diverged = True   # the complete view moved on; later results are compared with the model only
+            # (the two trees run in lockstep: a failing mutation is not applied to the complete tree either; only a
+            # slice assignment that fails in the middle makes them diverge)
+            if not a.startswith('ok') and (c or '').startswith('ok') and op[0] == 'sets':
+                diverged = True   # later results are compared with the model only
             # correspondence with the model (which is proved to fail only where an excluded subtree is needed)
             am = a if a.startswith('ok') else 'err'
             if am != ma:
                 cls = 'prop' if (ma or '').startswith('ok') and not a.startswith('ok') and not diverged else 'corr'
                 key = ('access that does not need an excluded subtree failed: op %d %s' if cls == 'prop' else 'partial result differs from the model: op %d %s') % (i, show(op))
                 out.append(F(cls, key, a, ma))
+                break
+            cm = c if (c or '').startswith('ok') or c == 'skip' else 'err'
+            if cm != mc and not diverged:
+                out.append(F('corr', 'complete-tree result differs from the model: op %d %s' % (i, show(op)), c, mc))
                 break
         return out
 
